@@ -125,7 +125,9 @@ def gen_args(rng, maxn=3):
         ty = rng.choice([P("u32"), P("String"), P("i64")])
         return [{"name": "q%d" % i, "ty": ty} for i in range(rng.choice([10, 11, 12, 13]))]
     n = rng.choice([0, 1, 1, 2, 2, maxn])
-    names = rng.sample(["a", "b", "amount", "to", "flag", "items", "memo", "x1", "y_2", "who"], n)
+    # names the generated helpers use for their own locals / fields are in the pool on purpose (shadowing)
+    names = rng.sample(["a", "b", "amount", "to", "flag", "items", "memo", "x1", "y_2", "who",
+                        "contract", "funds", "msg", "addr", "querier", "code_id", "label", "admin", "sender", "salt", "app", "contract_addr"], n)
     out = []
     for nm in names:
         ty = rand_vty(rng)
@@ -239,7 +241,7 @@ def gen_program(rng, idx, wild_p=0.25, n_ifaces=None, with_ce=None, replies_p=0.
         for _ in range(rng.randint(1, 3)):
             k = rng.choice(["exec", "exec", "query", "sudo"])
             nm = fresh_name(rng, fn_names, used_wire[k], wild_p)
-            ret = "resp" if k != "query" else rng.choice(["echo", "echo", "respb", "respc", "respb_explicit"])
+            ret = "resp" if k != "query" else rng.choice(["echo", "echo", "respb", "respc", "respb_explicit", "respb_as_c"])
             ms.append({"name": nm, "msg": {"kind": k}, "args": gen_args(rng), "ret_kind": ret, "ret_err": "self"})
         ifaces.append({"module": "ifc%d" % i, "name": "Ifc%d" % i, "methods": ms,
                        "alias": ("Alias%d" % i) if rng.random() < 0.3 else None})
@@ -259,7 +261,7 @@ def gen_program(rng, idx, wild_p=0.25, n_ifaces=None, with_ce=None, replies_p=0.
         if nm is None:
             nm = fresh_name(rng, fn_names, used_wire[k], wild_p)
         args = gen_args(rng)
-        cms.append({"name": nm, "msg": {"kind": k}, "args": args, "ret_kind": "resp" if k != "query" else rng.choice(["echo", "echo", "respb", "respc", "respb_explicit"]),
+        cms.append({"name": nm, "msg": {"kind": k}, "args": args, "ret_kind": "resp" if k != "query" else rng.choice(["echo", "echo", "respb", "respc", "respb_explicit", "respb_as_c"]),
                     "ret_err": rng.choice(["std", "ce"]) if ce else "std"})
     if rng.random() < 0.5:
         cms.append({"name": "mig_rate", "msg": {"kind": "migrate"}, "args": gen_args(rng, 2), "ret_kind": "resp",
@@ -298,11 +300,16 @@ def err_ty_text(m, contract):
     return "StdError"
 
 
-RESP_TYPES = {"echo": "EchoResp", "respb": "RespB", "respc": "RespC", "respb_explicit": "RespB"}
+# the response type a query *declares* (what the query-response table must name) ...
+RESP_TYPES = {"echo": "EchoResp", "respb": "RespB", "respc": "RespC", "respb_explicit": "RespB", "respb_as_c": "RespC"}
+# ... and the type the handler's signature returns (`respb_as_c`: an explicit resp= naming another type than the signature)
+BODY_TYPES = {"echo": "EchoResp", "respb": "RespB", "respc": "RespC", "respb_explicit": "RespB", "respb_as_c": "RespB"}
 
 
 def ret_ty(m, contract):
-    inner = {"p": [["Response", []]]} if m["ret_kind"] == "resp" else {"p": [[RESP_TYPES[m["ret_kind"]], []]]}
+    inner = {"p": [["Response", []]]} if m["ret_kind"] == "resp" else {"p": [[BODY_TYPES[m["ret_kind"]], []]]}
+    if m["ret_kind"] == "respb_as_c":
+        m["msg"]["resp"] = "RespC"
     if m["ret_kind"] == "respb_explicit":
         # an aliased result type: the response type has to be named in the attribute
         m["msg"]["resp"] = "RespB"
@@ -357,7 +364,7 @@ def handler_body(part, m):
         lines.append('ctx.deps.storage.set(b"last", show_pairs(&attrs).as_bytes());')
         lines.append("Ok(resp_of(attrs))")
     else:
-        lines.append("Ok(%s::from(attrs))" % RESP_TYPES[m["ret_kind"]])
+        lines.append("Ok(%s::from(attrs))" % BODY_TYPES[m["ret_kind"]])
     return " ".join(lines)
 
 
@@ -714,7 +721,7 @@ def render_helper_ops(prog):
     A("                let f: Vec<&str> = rest.splitn(10, ' ').collect();")
     A('                if f.len() < 10 { return "bad-op".into(); }')
     A("                let addr = Addr::unchecked(String::from_utf8_lossy(&unhex(f[3])).to_string());")
-    A('                let funds = if f[4] == "0" { vec![] } else { vec![Coin::new(f[4].parse::<u128>().unwrap_or(0), "utok")] };')
+    A("                let funds = coins_multi(f[4]);")
     A("                let c = Ctx { fail: f[5].to_string(), sender: f[6].to_string(), amount: f[4].parse().unwrap_or(0), height: f[7].parse().unwrap_or(1), seed: f[8].to_string() };")
     A("                let json = f[9];")
     A("                let built: Result<WasmMsg, String> = match (f[0], f[1], f[2]) {")
